@@ -577,13 +577,23 @@ def r_eq_memo(c):
                     "are compared once per path (exponential)")
 
 
+def r_state(c):
+    """caches belong to one mapper instance (and its clones by explicit hand-over)"""
+    from pta.rules.common import check_no_shared_state
+    mods = [x for x in c.model.modules if x.startswith("pytato.transform")
+            or x in ("pytato.analysis", "pytato.codegen")]
+    check_no_shared_state(
+        c, "R13-STATE", mods,
+        "every mapper instance shares it: results cached for one graph are returned "
+        "for another (or ids of dead objects are hit)")
+
 SPEC = Spec(
     prop="C13",
     rules=[r_children, r_children_overrides, r_once, r_key, r_collision, r_clone,
-           r_eq_memo],
+           r_eq_memo, r_state],
     floors={"R13-CHILDREN": 250, "R13-ONCE": 14, "R13-KEY": 20,
             "R13-COLLISION": 8, "R13-DOUBLE-CACHE": 8, "R13-CHILDREN-OVR": 20,
-            "R13-CLONE": 12, "R13-EQ-MEMO": 25},
+            "R13-CLONE": 12, "R13-EQ-MEMO": 25, "R13-STATE": 8},
     explanation=(
         "R13-CHILDREN enumerates (traversal family, node kind, child edge): for "
         "each of the 9 hand-written traversal families and every concrete node "
